@@ -130,16 +130,34 @@ pub const WATCHDOG_SECS: u64 = 40;
 
 struct Slot {
     started: Option<std::time::Instant>,
+    /// CPU time of the calling thread when the call started, and the clock that measures it: a call that spins burns CPU
+    /// time; a call that is merely starved on an overloaded machine does not, and is not a hang
+    cpu_at_start: f64,
+    cpu_clock: libc::clockid_t,
     script: Option<ScriptJ>,
     context: String,
 }
+
+fn cpu_secs(clock: libc::clockid_t) -> f64 {
+    let mut ts = libc::timespec { tv_sec: 0, tv_nsec: 0 };
+    // SAFETY: plain clock_gettime on a clock id obtained from pthread_getcpuclockid
+    if unsafe { libc::clock_gettime(clock, &mut ts) } != 0 {
+        return f64::MAX; // the thread is gone: treat as "burnt enough" (wall time decides)
+    }
+    ts.tv_sec as f64 + ts.tv_nsec as f64 / 1e9
+}
+/// CPU seconds a call must have burnt (on top of WATCHDOG_SECS of wall time) to count as spinning
+pub const WATCHDOG_CPU_SECS: f64 = 20.0;
 
 static SLOTS: std::sync::Mutex<Vec<std::sync::Arc<std::sync::Mutex<Slot>>>> = std::sync::Mutex::new(Vec::new());
 static HANG_FILE: std::sync::Mutex<Option<String>> = std::sync::Mutex::new(None);
 
 thread_local! {
     static MY_SLOT: std::sync::Arc<std::sync::Mutex<Slot>> = {
-        let s = std::sync::Arc::new(std::sync::Mutex::new(Slot { started: None, script: None, context: String::new() }));
+        let mut clock: libc::clockid_t = 0;
+        // SAFETY: pthread_self is always valid for the calling thread
+        unsafe { libc::pthread_getcpuclockid(libc::pthread_self(), &mut clock) };
+        let s = std::sync::Arc::new(std::sync::Mutex::new(Slot { started: None, cpu_at_start: 0.0, cpu_clock: clock, script: None, context: String::new() }));
         SLOTS.lock().unwrap().push(s.clone());
         s
     };
@@ -156,7 +174,7 @@ pub fn start_watchdog(hang_file: String) {
         for s in slots {
             let g = s.lock().unwrap();
             if let Some(t) = g.started {
-                if t.elapsed().as_secs() >= WATCHDOG_SECS {
+                if t.elapsed().as_secs() >= WATCHDOG_SECS && cpu_secs(g.cpu_clock) - g.cpu_at_start >= WATCHDOG_CPU_SECS {
                     let j = json!({"kind":"hang-watchdog","context":g.context,"script":g.script,"seconds":t.elapsed().as_secs()});
                     if let Some(p) = HANG_FILE.lock().unwrap().as_ref() {
                         let _ = std::fs::write(p, j.to_string());
@@ -173,6 +191,7 @@ fn enter(script: &ScriptJ) {
     MY_SLOT.with(|s| {
         let mut g = s.lock().unwrap();
         g.started = Some(std::time::Instant::now());
+        g.cpu_at_start = cpu_secs(g.cpu_clock);
         g.script = Some(script.clone());
     });
 }
